@@ -91,6 +91,9 @@ class State:
         return s
 
 
+ALIAS = {}  # actual function key -> role name (vlib/roles.py): canonical hole names do not depend on what a helper is called
+
+
 def some_of(rv):
     """The payload of an Option-valued hole on the path where it is Some."""
     return H("some-of", (rv.get("src") or "") + ".some", of=rv, ty=(re.match(r"Option<(.*)>$", rv.get("ty") or "") or [None, None])[1])
@@ -125,6 +128,10 @@ class Interp:
         self.depth = 0
         self.maxdepth = 12
         self.no_inline = _no_inline(facts)
+        from . import roles
+
+        ALIAS.clear()
+        ALIAS.update(roles.resolve(facts)[1])
 
     # -------------------------------------------------------------- helpers
     def payload_type(self, enum, variant, idx):
@@ -403,17 +410,58 @@ class Interp:
                 b.conds = b.conds + ((canon(v), "no match " + self.pat_canon(cond["pat"])),)
                 out += self.ev(e["else"], b) if e["else"] is not None else [(b, {"v": "unit"})]
             return out
+        # `if !c {A} else {B}` is `if c {B} else {A}`: conditions are recorded in positive form
+        then_, else_ = e["then"], e["else"]
+        while cond["k"] == "unary" and cond["op"] == "!":
+            cond = cond["e"]
+            then_, else_ = else_, then_
+        while cond["k"] == "paren":
+            cond = cond["e"]
+
+        def run(br, s_):
+            return self.ev(br, s_) if br is not None else [(s_, {"v": "unit"})]
+
         for s1, cv in self.ev(cond, st):
             if cv.get("v") == "bool":
-                br = e["then"] if cv["b"] else e["else"]
-                out += self.ev(br, s1) if br is not None else [(s1, {"v": "unit"})]
+                out += run(then_ if cv["b"] else else_, s1)
+                continue
+            # `x == 'c'` is the one-literal match on x: same condition names as `match x {'c' => .., _ => ..}`
+            if cv.get("v") == "hole" and cv.get("kind") == "expr" and cv.get("op") in ("==", "!=") and len(cv.get("operands", [])) == 2:
+                l_, r_ = cv["operands"]
+                if l_.get("v") in ("char", "int") and r_.get("v") == "hole":
+                    l_, r_ = r_, l_
+                if l_.get("v") == "hole" and r_.get("v") in ("char", "int"):
+                    lit = repr(r_["c"]) if r_["v"] == "char" else repr(r_["n"])
+                    yes, no = (then_, else_) if cv["op"] == "==" else (else_, then_)
+                    a = s1.fork()
+                    a.conds = a.conds + ((canon(l_), (lit,)),)
+                    out += run(yes, a)
+                    b = s1.fork()
+                    b.conds = b.conds + ((canon(l_), ("_",)),)
+                    out += run(no, b)
+                    continue
+            # Option tests: `o.is_none()`, `o.is_some()`, `map.contains_key(k)` are the Some/None cases of `o` / `map.get(k)`
+            opt, some_branch, none_branch = None, None, None
+            if cv.get("v") == "hole" and cv.get("kind") == "mcall" and cv.get("method") in ("is_none", "is_some") and not cv.get("args") and isinstance(cv.get("recv"), dict) and cv["recv"].get("v") == "hole":
+                opt = cv["recv"]
+                some_branch, none_branch = (then_, else_) if cv["method"] == "is_some" else (else_, then_)
+            elif cv.get("v") == "hole" and cv.get("kind") == "lookup" and cv.get("method") == "contains_key":
+                opt = dict(cv, method="get")
+                some_branch, none_branch = then_, else_
+            if opt is not None:
+                a = s1.fork()
+                a.conds = a.conds + ((canon(opt), "Some"),)
+                out += run(some_branch, a)
+                b = s1.fork()
+                b.conds = b.conds + ((canon(opt), "None"),)
+                out += run(none_branch, b)
                 continue
             a = s1.fork()
             a.conds = a.conds + ((canon(cv), True),)
-            out += self.ev(e["then"], a)
+            out += run(then_, a)
             b = s1.fork()
             b.conds = b.conds + ((canon(cv), False),)
-            out += self.ev(e["else"], b) if e["else"] is not None else [(b, {"v": "unit"})]
+            out += run(else_, b)
         return out
 
     def ev_match(self, e, st):
@@ -1194,7 +1242,7 @@ def canon(h):
     if k == "param":
         return "@%s%s" % (h.get("pos"), spec)
     if k == "call":
-        return "%s(%s)%s" % (h.get("callee"), ",".join(canon(a) for a in h.get("args", [])), spec)
+        return "%s(%s)%s" % (ALIAS.get(h.get("callee"), h.get("callee")), ",".join(canon(a) for a in h.get("args", [])), spec)
     if k == "mcall":
         return "%s.%s(%s)%s" % (canon(h.get("recv")), h.get("method"), ",".join(canon(a) for a in h.get("args", [])), spec)
     if k == "mgr":
